@@ -80,6 +80,8 @@ const (
 	ReOpenExisting        // Open an existing bucket, or fail if none exists.
 )
 
+var openMutex sync.Mutex // held by OpenBucket from the registry lookup to the registration of a new bucket
+
 // Creates a new bucket, or opens an existing one.
 //
 // The URL should have the scheme 'rosmar' or 'file' and a filesystem path.
@@ -95,6 +97,12 @@ func OpenBucket(urlStr string, bucketName string, mode OpenMode) (b *Bucket, err
 		return nil, err
 	}
 	urlStr = u.String()
+
+	// Opens are serialized: two concurrent first opens of the same (not yet registered) bucket would each build a
+	// store of their own on the same files, and the one that loses - e.g. on the schema it finds half-created by
+	// the other - would clean up "its" bucket, i.e. delete the database the winner has just handed to its caller.
+	openMutex.Lock()
+	defer openMutex.Unlock()
 
 	bucket, err := getCachedBucket(bucketName, urlStr, mode)
 	if err != nil {
